@@ -209,6 +209,24 @@ def to_array(tree):
     raise TypeError(f"not an array tree: {tree[0]}")
 
 
+def fast_fp(v, _depth=0):
+    """Cheap change detector for the after-event audits (never logged, never compared across processes): raw bytes of arrays
+    through the built-in hash, scalars by value, anything else through the canonical digest."""
+    if isinstance(v, np.ndarray):
+        if v.dtype.kind == "O":
+            return digest(canon(v))
+        return ("a", v.dtype.str, v.shape, hash(v.tobytes()))
+    if v is None or isinstance(v, (bool, int, float, str)):
+        return v
+    if hasattr(v, "_array") and hasattr(type(v), "with_new_array") and _depth < 3:
+        m = getattr(v, "mask", None)
+        return ("s", type(v).__name__, fast_fp(np.asarray(v._array), _depth + 1), fast_fp(m, _depth + 1) if m is not None and m is not v else None,
+                getattr(v, "pixel_scales", None) if type(v).__name__.startswith("Mask") else None, getattr(v, "origin", None) if type(v).__name__.startswith("Mask") else None)
+    if isinstance(v, (tuple, list)) and len(v) <= 16 and _depth < 3:
+        return ("t", tuple(fast_fp(x, _depth + 1) for x in v))
+    return digest(canon(v))
+
+
 def fingerprint_array(a) -> str:
     """Byte fingerprint of a caller-owned array (exact bytes, no normalisation)."""
     a = np.asarray(a)
